@@ -144,6 +144,8 @@ def run(ctx, chk, tier):
                 raw = rate_of(M)
                 overall = rate_of(App("CMALL", (sk, TH)))
                 want_G = normalised(raw, normalize, raw, overall)
+                ranks = {raw: ("G", "T"), SAMPLES: ("N", "G", "T")}
+                G = canon_min(G, ranks)
                 if same(G, want_G):
                     chk.hold("R18.2", inst + ":values", "values = %s of group_cm%s" % ("fnr", {None: "", "by_overall": " / fnr of cm (unless 0)", "by_min": " / min over groups (unless 0)"}[normalize]))
                 else:
@@ -173,23 +175,27 @@ def run(ctx, chk, tier):
                     chk.hold("R18.3", inst + ":replicate-metric", "replicates = per-group metric of each bootstrap sample (caller's bootstrap_config)")
                 else:
                     chk.violation("R18.3", SB, inst + ":replicate-metric", show(msamp, 160) if msamp is not None else "no closure", show(want_ms, 160), ctx.where(SB))
-                if same(ci.get("theta_hat"), G) and ci.get("alpha") == AL and ci.get("method") == cfg.attrs["bootstrap_method"]:
+                if same(canon_min(ci.get("theta_hat"), ranks), G) and ci.get("alpha") == AL and ci.get("method") == cfg.attrs["bootstrap_method"]:
                     chk.hold("R18.3", inst + ":theta_hat", "theta_hat has the value number of the reported values; alpha and method forwarded")
                 else:
                     chk.violation("R18.3", SB, inst + ":theta_hat", "theta_hat=%s alpha=%s method=%s" % (show(ci.get("theta_hat"), 200), show(ci.get("alpha"), 30), show(ci.get("method"), 30)),
                                   "theta_hat = the reported (normalised) values %s" % show(G, 160), ctx.where(SB))
                 want_theta = normalised(SAMPLES, normalize, SAMPLES, overall)
-                if same(ci.get("theta"), want_theta):
+                theta_c = canon_min(ci.get("theta"), ranks)
+                wrong_axis = subst(want_theta, {App("min_over", (SAMPLES, Const("G"))): App("min_over", (SAMPLES, Const("N")))})
+                if same(theta_c, want_theta):
                     chk.hold("R18.3", inst + ":theta", "replicates pass through the same normalisation as the values")
+                elif normalize == "by_min" and same(theta_c, wrong_axis):
+                    pass   # reported below as the axis-role finding R18.4
                 else:
-                    chk.violation("R18.3", SB, inst + ":theta", show(ci.get("theta"), 200), show(want_theta, 200), ctx.where(SB))
+                    chk.violation("R18.3", SB, inst + ":theta", show(theta_c, 200), show(want_theta, 200), ctx.where(SB))
                 if normalize == "by_min":
                     # axis roles: values (G, T) -> axis 0 = group; replicates (N, G, T) -> axis 0 = replicate
-                    red = [a for a in atoms_of(ci.get("theta")) if isinstance(a, App) and a.fn in ("amin", "amax") and a.args[0] == SAMPLES]
-                    ax = red[0].kwd("axis") if red else None
-                    if ax == Const(1):
-                        chk.hold("R18.4", inst + ":replicate-axis", "by_min on replicates reduces the group axis (axis 1 of (N, G, T))")
-                    elif ax == Const(0):
+                    red = [a for a in atoms_of(theta_c) if isinstance(a, App) and a.fn == "min_over" and a.args[0] == SAMPLES]
+                    role = red[0].args[1] if red else None
+                    if role == Const("G"):
+                        chk.hold("R18.4", inst + ":replicate-axis", "by_min on replicates reduces the group axis of (N, G, T)")
+                    elif role == Const("N"):
                         chk.violation("R18.4", NORM, "by_min-axis:replicates",
                                       "np.min(replicates, axis=0): axis 0 of the (N, G, T) replicate array is the replicate axis, not the group axis",
                                       "the minimum over groups (the same quantity the reported value is divided by)", ctx.where(NORM))
@@ -220,10 +226,22 @@ def rate_of(M):
     return mk_app("gdiv", [fn, p, NAN, cmp0("ne", to_poly(p))])
 
 
+def canon_min(v, ranks):
+    """Replace amin/amax(X, axis=a[, keepdims]) by min_over(X, role): role = which named axis of X is reduced."""
+    mp = {}
+    for a in atoms_of(v):
+        if isinstance(a, App) and a.fn in ("amin", "amax") and a.args and a.args[0] in ranks:
+            roles = ranks[a.args[0]]
+            ax = a.kwd("axis")
+            if isinstance(ax, Const) and isinstance(ax.value, int) and -len(roles) <= ax.value < len(roles):
+                mp[a] = App("%s_over" % a.fn[1:], (a.args[0], Const(roles[ax.value])))
+    return subst(v, mp) if mp else v
+
+
 def normalised(values, normalize, minsrc, overall):
     if normalize is None:
         return values
-    den = overall if normalize == "by_overall" else App("amin", (minsrc,), [("axis", Const(0))])
+    den = overall if normalize == "by_overall" else App("min_over", (minsrc, Const("G")))
     g = cmp0("ne", to_poly(den))
     return mk_app("where", [g, mk_app("gdiv", [values, den, Const(0), g]), values])
 
